@@ -2,7 +2,7 @@
 (This module also holds the scenario machinery shared with C10: Go module trees, configs,
 the resolver that turns a scenario into the abstract world of coq/Cfg/Pipeline.v, running the
 real binary, snapshots.)"""
-import copy, hashlib, json, os, posixpath, re, shutil, stat, subprocess
+import copy, hashlib, json, os, posixpath, re, shutil, stat, subprocess, tempfile
 from common import *
 
 MOD = "example.com/m"
@@ -50,6 +50,10 @@ CATALOG = {
     "n/q": {"files": {"q.go": (None, "package q\n\ntype Q1 interface{ M() }\n")}, "ifaces": {"q.go": ["Q1"]}},
     "n/q/r": {"files": {"r.go": (None, "package r\n\ntype QR1 interface{ M() }\n")}, "ifaces": {"r.go": ["QR1"]}},
     "n/z": {"files": {"z.go": (None, "package z\n\ntype Z1 interface{ M() }\n")}, "ifaces": {"z.go": ["Z1"]}},
+    # identifiers with multi-byte letters (not only at the end)
+    "uni": {"files": {"uni.go": (None, "package uni\n\ntype \u00dcberwacher interface{ M() }\n\ntype \u00dcn\u00efc\u00f6d\u00e9 interface{ M(x int) string }\n\n"
+                                       "type Gr\u00f6\u00dfe interface{ Wert() int }\n\ntype \u03a9mega1 interface{ M() }\n\ntype I\u00f1t\u00ebrface interface{ M() }\n")},
+            "ifaces": {"uni.go": ["\u00dcberwacher", "\u00dcn\u00efc\u00f6d\u00e9", "Gr\u00f6\u00dfe", "\u03a9mega1", "I\u00f1t\u00ebrface"]}},
     # distinct packages with the SAME package name (and partly the same interface names)
     "x/store": {"files": {"s.go": (None, "package store\n\ntype Store interface{ Get(k string) string }\n")}, "ifaces": {"s.go": ["Store"]}},
     "y/store": {"files": {"s.go": (None, "package store\n\ntype Store interface{ Get(k string) string }\n\ntype Other interface{ M() }\n")}, "ifaces": {"s.go": ["Store", "Other"]}},
@@ -168,7 +172,7 @@ def go_search(rx, s):
         return None
 
 
-BAD_RX = ["(", "[a-", "a{2,1}", "*x", "\\"]
+BAD_RX = ["(", "[a-", "a{2,1}", "*x", "\\", "(\u00fc", "[\u00e9-a]"]
 
 
 def rx_valid(rx):
@@ -358,7 +362,7 @@ def resolve(scn, S):
     for p_ in pkgs:
         for d_ in p_["decls"]:
             for q_ in d_["reqs"]:
-                q_["devfull"] = scn.get("links", {}).get("/".join(q_["path"])) == "/dev/full"
+                q_["devfull"] = str(scn.get("links", {}).get("/".join(q_["path"]), "")).endswith(DEVFULL_NAME)
     for r in roots:
         r["exclude"] = [{"valid": rx_valid(rx), "matches": [s_ for s_ in r["subs"] if rx_valid(rx) and go_search(rx, s_)]} for rx in r["excl"]]
     fsinfo = {"dirs": {k for k, v in scn["init"].items() if v == "DIR"}, "files": {k for k, v in scn["init"].items() if v != "DIR"},
@@ -491,6 +495,8 @@ def bind(scn, S):
     b = copy.deepcopy(scn)
     b["root"] = subst(b["root"], S)
     b["packages"] = subst(b["packages"], S)
+    b["links"] = {k: (v.replace("@DEVFULL@", DEVFULL["path"] or ("/nonexistent/" + DEVFULL_NAME)) if isinstance(v, str) else v)
+                  for k, v in b.get("links", {}).items()}
     return b
 
 
@@ -757,6 +763,8 @@ def gen_base(rng, npk=None, layout=None, pkgs=None):
     if pkgs is None:
         pool = ["a", "b", "c"]
         pkgs = rng.sample(pool, npk or rng.randint(2, 3))
+        if rng.random() < 0.3:
+            pkgs.append("uni")                      # interface names with multi-byte letters
         if rng.random() < 0.35:
             pkgs += ["r", "r/s1", "r/s2"]
         elif rng.random() < 0.2:
@@ -767,13 +775,13 @@ def gen_base(rng, npk=None, layout=None, pkgs=None):
     if rng.random() < 0.3:
         root["formatter"] = rng.choice(["gofmt", "goimports", "noop"])
     if layout == "mocksdir":
-        root["dir"] = "mocks/{{.SrcPackageName}}"
+        root["dir"] = rng.choice(["mocks/{{.SrcPackageName}}", "mocks/{{.SrcPackageName}}", "m\u00f6cks/{{.SrcPackageName}}"])
         root["filename"] = rng.choice(["mocks.go", "zz_{{.SrcPackageName}}.go"])
         root["pkgname"] = "mocks"
     elif layout == "periface":
         root["filename"] = "mock_{{.InterfaceName}}_test.go"
         if rng.random() < 0.5:
-            root["structname"] = "{{.InterfaceName}}Mock"
+            root["structname"] = rng.choice(["{{.InterfaceName}}Mock", "M\u00f6ck{{.InterfaceName}}"])
     for name in pkgs:
         if name in ("r/s1", "r/s2"):
             continue
@@ -1066,20 +1074,20 @@ def inj_pkg_load_error(rng, scn, fileless=False):
 
 def inj_unknown_template(rng, scn, levels=("root", "pkg", "iface", "entry")):
     lv, d, path = level_dict(rng, scn, levels)
-    d["template"] = rng.choice(["nonsense", "Testify", "mockery"])
+    d["template"] = rng.choice(["nonsense", "Testify", "mockery", "t\u00ebstify", "\u0442estify"])
     scn["tags"].append("UnknownTemplate")
     scn["tags"].append("level:" + lv)
 
 
 def inj_unknown_formatter(rng, scn, levels=("root", "pkg", "iface", "entry")):
     lv, d, path = level_dict(rng, scn, levels)
-    d["formatter"] = rng.choice(["prettier", "GoFmt", "none"])
+    d["formatter"] = rng.choice(["prettier", "GoFmt", "none", "g\u00f6fmt"])
     scn["tags"].append("UnknownFormatter")
     scn["tags"].append("level:" + lv)
 
 
 def inj_unknown_key(rng, scn):
-    key = rng.choice(["dirr", "file-name", "mockname", "inpackage", "with-expecter", "templates", "outpkg"])
+    key = rng.choice(["dirr", "file-name", "mockname", "inpackage", "with-expecter", "templates", "outpkg", "d\u00efr", "\u0444ormatter"])
     lv = rng.choice(["root", "pkg", "iface", "entry", "pkgentry", "ifaceentry"])
     if lv in ("pkgentry", "ifaceentry"):
         path, _ = pick_pkg(rng, scn, lambda p, e: ifaces_of(p))
@@ -1101,7 +1109,7 @@ def inj_unknown_key(rng, scn):
 
 
 def inj_bad_regex(rng, scn, kind=None):
-    bad = rng.choice(BAD_RX[:4])
+    bad = rng.choice(BAD_RX[:4] + BAD_RX[5:])
     kind = kind or rng.choice(["include", "exclude", "subpkg"])
     if kind == "subpkg":
         if "r" not in scn["pkgs"]:
@@ -1150,7 +1158,7 @@ def inj_bad_templated(rng, scn):
 
 def inj_schema_reject(rng, scn, levels=("root", "pkg", "iface", "entry")):
     lv, d, path = level_dict(rng, scn, levels)
-    d["template-data"] = rng.choice([{"bogus-key": 1}, {"unroll-variadic": "yes"}, {"boilerplate-file": 3}])
+    d["template-data"] = rng.choice([{"bogus-key": 1}, {"unroll-variadic": "yes"}, {"boilerplate-file": 3}, {"b\u00f6gus-k\u00e9y": 1}, {"unroll-variadic": "\u00fc"}])
     scn["tags"].append("SchemaReject")
     scn["tags"].append("level:" + lv)
 
@@ -1434,6 +1442,27 @@ def inj_listed_fileless_parent(rng, scn):
     scn["tags"].append("level:fileless-parent")
 
 
+def inj_listed_unicode(rng, scn):
+    """a listed interface that does not exist (ASCII and non-ASCII spellings) in a package whose
+    declared interfaces have multi-byte letters in their names"""
+    path = pkg_path("uni")
+    ifs = ifaces_of(path)
+    how = rng.choice(["all", "listed", "listed-all"])
+    for sc in [scn] + ([scn["base_ref"]] if scn.get("base_ref") is not None else []):
+        if "uni" not in sc["pkgs"]:
+            sc["pkgs"].append("uni")
+        if how == "all":
+            sc["packages"][path] = {"config": {"all": True}, "interfaces": {}}
+        elif how == "listed":
+            sc["packages"][path] = {"interfaces": {i: None for i in ifs[:2]}}
+        else:
+            sc["packages"][path] = {"interfaces": {i: None for i in ifs}}
+    for n in rng.sample(["Missing", "\u00dcberwachr", "\u03a9mega", "Gr\u00f6sse", "I\u00f1t\u00ebrfac\u00e9", "\u00fcberwacher"], rng.randint(1, 3)):
+        scn["packages"][path]["interfaces"][n] = None
+    scn["tags"].append("ListedMissing")
+    scn["tags"].append("level:unicode-" + how)
+
+
 def inj_listed_multi(rng, scn):
     """several missing names at once, in two packages"""
     ps = [p for p in scn["packages"]]
@@ -1529,20 +1558,46 @@ def inj_write_fails_parent_file(rng, scn):
     scn["tags"] += ["OutputParentIsFile"]
 
 
+DEVFULL_NAME = "verif-private-devfull"
+DEVFULL = {"path": None, "tried": False}
+
+
 def devfull_ok():
-    try:
-        with open("/dev/full", "wb", buffering=0) as f:
-            f.write(b"x")
-    except OSError as e:
-        return e.errno == 28
-    return False
+    """A PRIVATE character device (1,7) = a copy of /dev/full in the harness's own directory: every write
+    to it fails with ENOSPC.  The real /dev/full is never opened or linked to (a changed mockery that
+    removes or replaces what an output path points to must not be able to damage the system, and an
+    open(..., 'w') of a missing /dev/full would create a regular file there).  None if the device cannot
+    be made (not root, nodev mount): the write-fault scenarios are then not generated."""
+    if not DEVFULL["tried"]:
+        DEVFULL["tried"] = True
+        d = tempfile.mkdtemp(prefix="vf-devfull-", dir=os.environ.get("VERIF_SCRATCH", "/tmp"))
+        p_ = os.path.join(d, DEVFULL_NAME)
+        try:
+            os.mknod(p_, 0o666 | stat.S_IFCHR, os.makedev(1, 7))
+            os.chmod(p_, 0o666)
+            fd = os.open(p_, os.O_WRONLY)
+            try:
+                os.write(fd, b"x")
+            except OSError as e:
+                if e.errno == 28:
+                    DEVFULL["path"] = p_
+            finally:
+                os.close(fd)
+        except OSError:
+            pass
+        if DEVFULL["path"] is None:
+            shutil.rmtree(d, ignore_errors=True)
+        else:
+            import atexit
+            atexit.register(shutil.rmtree, d, True)
+    return DEVFULL["path"] is not None
 
 
 def inj_write_fault(rng, scn):
     """the output path is a symbolic link to /dev/full: it can be opened, the write itself fails
     (no space left on device); the other files of the run are valid"""
     if not devfull_ok():
-        raise IndexError("/dev/full is not available")
+        raise IndexError("no private full device available")
     path = rng.choice(sorted(selecting(scn)))
     # not inside a source package directory (go list would read the link)
     for sc in [scn] + ([scn["base_ref"]] if scn.get("base_ref") is not None else []):
@@ -1559,7 +1614,7 @@ def inj_write_fault(rng, scn):
         if lvl(lvl(e, "config"), "force-file-write") is not None:
             del e["config"]["force-file-write"]
     names = [r for r, q in output_names(scn).items() if r.startswith("m/gen/")]
-    scn["links"][rng.choice(sorted(names))] = "/dev/full"
+    scn["links"][rng.choice(sorted(names))] = "@DEVFULL@"
     scn["tags"] += ["OutputWriteFault", "level:force-%s" % scn["root"]["force-file-write"]]
 
 
@@ -1582,6 +1637,7 @@ INJECTIONS = {
     "ListedMissing": inj_listed_missing, "ListedMissingAll": lambda rng, scn: inj_listed_missing(rng, scn, True),
     "ListedMissingStale": inj_listed_stale, "ListedMissingNoIfaces": inj_listed_noifaces,
     "ListedMissingFilelessParent": inj_listed_fileless_parent, "ListedMissingMulti": inj_listed_multi,
+    "ListedMissingUnicode": inj_listed_unicode,
     "SchemaRejectLookalike": inj_schema_lookalike,
     "UnknownTemplateLater": later("template", ["nonsense", "Testify"], "UnknownTemplate"),
     "UnknownFormatterLater": later("formatter", ["prettier", "GoFmt"], "UnknownFormatter"),
@@ -1951,7 +2007,7 @@ def apply_injections(rng, kinds_):
 def gen_scenarios(ctx, n_inj, n_combo, n_unusual, n_valid):
     rng = ctx.rng
     out = Out()
-    kinds = list(INJECTIONS)
+    kinds = [k for k in INJECTIONS if k != "WriteFaultDevFull" or devfull_ok()]
     for i in range(n_valid):
         s = gen_base(rng)
         s["init"] = unrelated_files(rng, s)
